@@ -64,7 +64,12 @@ theorem C05_by_length (d : DictFn) (bs : Bytes) (fin : Fin) (h : Header) (r : Na
     simp [splitStep, hne, hlt, hh, hc, h1, h2]
 
 /-- regenerated constant -/
-theorem C05_gen : Gen.HeaderLength = 20 ∧ Gen.MessageBufferLength = 1024 := by decide
+theorem C05_gen : Gen.HeaderLength = 20 ∧ Gen.MessageBufferLength = 1024 ∧
+    -- one path for every kind of reader: header, then exactly (declared length - 20) body bytes,
+    -- after the declared length was checked against the header's own 20
+    Gen.readMessageCalls = ["readHeader", "readBody"] ∧
+    Gen.readBodyGuard = "(m.Header.MessageLength<HeaderLength)" ∧
+    Gen.readBodyLength = "int((m.Header.MessageLength-HeaderLength))" := by decide
 
 /-- non-vacuity: two fragmentations of a 24-byte stream (a 20-byte message and 4 stray bytes) -/
 example : (Src.mk [[1,0,0,20,0x80,0,1,1, 0,0,0,0, 0,0,0,1, 0,0,0,2, 9,9,9,9]] .eof).wf ∧
